@@ -65,7 +65,19 @@ def natsorted(it, key=None):
 SEQ = "GATTACAGGCCTTAGCAGTCCATGGCTAAGCTTGACCGTAGGCTTACCGATAGCTTAGGCA"  # 60 nt
 
 
-def base_yml(alleles):
+SEQ2 = "TTGACGGATCCATTGCAGGCTAACGTTAGCCATGGACTTGCAAGGCTTAACGGATCATGC"  # 60 nt: the pseudogene part of a reference that spans both
+
+
+def base_yml(alleles, pseudogene_in_reference=False):
+    if pseudogene_in_reference:
+        return {"name": "G", "version": "1", "generated": "x",
+                "reference": {"name": "NG_1", "seq": SEQ + SEQ2, "mappings": {"hg19": ["1", 1001, 1121, "+", "M120"], "hg38": ["1", 5001, 5121, "-", "M120"]},
+                              "exons": [[11, 40]]},
+                "structure": {"genes": ["G", "GP"],
+                              "regions": {"hg19": {"up": [1001, 1011, 1061, 1071], "e1": [1011, 1031, 1071, 1091], "e2": [1031, 1061, 1091, 1121]},
+                                          "hg38": {"up": [5111, 5121, 5051, 5061], "e1": [5091, 5111, 5031, 5051], "e2": [5061, 5091, 5001, 5031]}},
+                              "cn_regions": ["e1", "e2"], "tandems": [["13", "1"]]},
+                "alleles": alleles}
     return {"name": "G", "version": "1", "generated": "x",
             "reference": {"name": "NG_1", "seq": SEQ, "mappings": {"hg19": ["1", 1001, 1061, "+", "M60"], "hg38": ["1", 5001, 5061, "-", "M60"]},
                           "exons": [[11, 40]]},
@@ -78,7 +90,7 @@ def base_yml(alleles):
 
 def V(pos, alt_or_op, rs, fn=None):
     """A database variant row at 1-based RefSeq position `pos`."""
-    b = SEQ[pos - 1]
+    b = (SEQ + SEQ2)[pos - 1]
     op = alt_or_op if (alt_or_op.startswith("ins") or alt_or_op.startswith("del")) else f"{b}>{alt_or_op}"
     if alt_or_op == "del":
         op = f"del{SEQ[pos - 1:pos + 1]}"
@@ -142,6 +154,16 @@ def databases():
         "G*7.003": {"mutations": [C20, C52], "label": "G*7"},
         "G*7.004": {"mutations": [C20, V(30, "C", "rs30", "L7P")], "label": "G*7"},
         "G*13": {"mutations": [["GP", "e2-"]]},
+    }))
+    P75, P100, P82 = V(75, "A" if SEQ2[14] != "A" else "C", "rs75"), V(100, "A" if SEQ2[39] != "A" else "C", "rs100"), V(82, "A" if SEQ2[21] != "A" else "C", "rs82")
+    dbs.append(("PSEUDO: variants inside the pseudogene part of the reference", {
+        "G*1": {"mutations": []},
+        "G*2": {"mutations": [C20, S45]},
+        "G*2.002": {"mutations": [C20, S45, P75, P100]},          # the left fusion keeps S45 (gene e2) and P75 (pseudogene e1), drops C20 and P100
+        "G*3": {"mutations": [C25, P82]},
+        "G*13": {"mutations": [["GP", "e2-"]]},
+        "G*36": {"mutations": [["GP", "e2+"], C20]},
+        "G*5": {"mutations": [["G", "deletion"]]},
     }))
     return dbs
 
@@ -409,7 +431,7 @@ def run(repo, res):
     f = repo.func("gene::Gene._init_alleles")
     for fn in ("_init_basic", "_init_regions", "_init_alleles", "_init_partials", "get_allele", "get_functional"):
         res.analysed(f"gene::Gene.{fn}")
-    dbs = [(l, base_yml(a)) for l, a in databases()]
+    dbs = [(l, base_yml(a, pseudogene_in_reference=l.startswith("PSEUDO"))) for l, a in databases()]
     if thorough():
         rnd = random.Random(seed())
         for i in range(20):
@@ -447,6 +469,9 @@ def run(repo, res):
 
 
 MUTANTS = [
+    dict(name="R6 retained regions judged by the main gene's vector only (seeded C09_b1 shape)", module="gene", expect="C09.R6",
+         old="                if m:\n                    return self.cn_configs[f].cn[m[0]][m[1]] > 0\n                return False",
+         new="                if m:\n                    return self.cn_configs[f].cn[0][m[1]] > 0\n                return False"),
     dict(name="R1 alias table not written", module="gene", expect="C09.R1",
          old="                            self.removed[s] = min(sa)\n", new="                            pass\n"),
     dict(name="R1 duplicate minors both dropped from the lookup", module="gene", expect=["C09.R1", "C09.R3"],
